@@ -169,8 +169,13 @@ def space(o, key, kinds=('rn', 'cn', 'discr', 'cdiscr'), ndims=(1, 2),
                'cn': ['complex128', 'complex128', 'complex64'] if f32 else
                ['complex128'],
                'int': ['int64', 'int32']}[kind]
-        return o.pick(key, vs.tensor_space_descs(
+        sd = o.pick(key, vs.tensor_space_descs(
             shapes=shapes, dtypes=dts, weighting_kinds=wk))
+        if sd['dtype'] in ('float32', 'complex64') and \
+                (sd.get('weighting') or {}).get('type') == 'array':
+            # array weights must have the space dtype (documented ValueError)
+            sd = dict(sd, weighting=None)
+        return sd
     dts = {'discr': ['float64', 'float64', 'float32'] if f32 else ['float64'],
            'cdiscr': ['complex128']}[kind]
     return o.pick(key, vs.discr_space_descs(
@@ -338,3 +343,1149 @@ def point_descs(draw, dom, orders=('C', 'C', 'F', 'strided'), nvals=24):
     vals = draw(st.lists(dom_values(dom), min_size=n, max_size=n))
     return {'dom': dom, 'vals': vals, 'seed': draw(st.integers(0, 9999)),
             'order': draw(st.sampled_from(list(orders)))}
+
+
+FAMILY_WEIGHTS = collections.OrderedDict([
+    ('default', 6), ('ufuncfunc', 2), ('derivative', 3), ('tensor', 5), ('pspace', 5),
+    ('diff', 5), ('discr', 4), ('ufunc', 6), ('expr', 6), ('trafo', 4),
+    ('deform', 1), ('tomo', 1), ('functional', 5), ('gradient', 4),
+    ('prox', 6), ('funcprox', 5), ('solverblock', 2),
+])
+
+
+@st.composite
+def weighted_entry_names(draw, names):
+    """Family by weight, then entry uniformly inside the family."""
+    byfam = collections.OrderedDict()
+    for n in names:
+        byfam.setdefault(ENTRIES[n].family, []).append(n)
+    fams = []
+    for f, members in byfam.items():
+        fams.extend([f] * FAMILY_WEIGHTS.get(f, 1))
+    fam = draw(st.sampled_from(fams))
+    pool = []
+    for n in byfam[fam]:
+        pool.extend([n] * ENTRIES[n].weight)
+    return draw(st.sampled_from(pool))
+
+
+def sweep(case_strategy_for, names, per_entry=3, seed=20260926):
+    """Deterministic list of descriptors: ``per_entry`` Hypothesis draws of
+    ``case_strategy_for(name)`` for every entry name."""
+    import hypothesis
+    from hypothesis import given, settings, HealthCheck, Phase
+    out = []
+    for i, name in enumerate(names):
+        got = []
+
+        @hypothesis.seed(seed + i)
+        @settings(max_examples=per_entry, database=None, deadline=None,
+                  phases=[Phase.generate],
+                  suppress_health_check=list(HealthCheck))
+        @given(case_strategy_for(name))
+        def collect(d):
+            got.append(d)
+
+        collect()
+        out.extend(got[:per_entry])
+    return out
+
+
+DOCUMENTED_BUILD_REJECTIONS = (NotImplementedError,)
+
+
+def innermost_is_harness(exc):
+    """True if the exception was raised by harness code (not inside odl)."""
+    import traceback
+    root = os.path.join(odl_root(), 'odl') + os.sep
+    frames = traceback.extract_tb(exc.__traceback__)
+    return not any(os.path.abspath(fr.filename).startswith(root)
+                   for fr in frames)
+
+
+def _walk_ops(op, depth=0, seen=None):
+    """The operator and the operators reachable through its public operand
+    attributes (expression trees, product-space operator matrices)."""
+    seen = set() if seen is None else seen
+    if id(op) in seen or depth > 6 or not isinstance(op, Operator):
+        return
+    seen.add(id(op))
+    yield op
+    for attr in ('left', 'right', 'operator', 'functional', 'prod_op',
+                 'inverse_of', 'operators', 'functionals'):
+        try:
+            sub = getattr(op, attr)
+        except Exception:  # noqa
+            continue
+        if isinstance(sub, Operator):
+            for s in _walk_ops(sub, depth + 1, seen):
+                yield s
+        elif isinstance(sub, (list, tuple)):
+            for s_ in sub:
+                for s in _walk_ops(s_, depth + 1, seen):
+                    yield s
+    ops = getattr(op, 'ops', None)
+    if ops is not None and hasattr(ops, 'data'):
+        for s_ in ops.data:
+            for s in _walk_ops(s_, depth + 1, seen):
+                yield s
+
+
+def uses_pyfftw(op):
+    return any(getattr(s, 'impl', None) == 'pyfftw' for s in _walk_ops(op))
+
+
+def _space_tag(spc):
+    if isinstance(spc, Field):
+        return 'field'
+    if isinstance(spc, ProductSpace):
+        return 'pspace'
+    tag = 'discr' if isinstance(spc, odl.DiscretizedSpace) else 'tensor'
+    k = np.dtype(spc.dtype).kind
+    return tag + {'f': '', 'c': '-cplx', 'i': '-int', 'u': '-int',
+                  'b': '-bool'}.get(k, '')
+
+
+def region(op, desc):
+    """Region part of a violation signature: entry, space kinds, size regime
+    and the options that select a code path."""
+    opts = desc['op']['opts']
+    parts = [desc['op']['entry'], 'dom=' + _space_tag(op.domain),
+             'ran=' + _space_tag(op.range)]
+    n = flat.rdim(op.range) if not isinstance(op.range, Field) else 1
+    parts.append('small' if n < 100 else 'medium')
+    for k in ('impl', 'halfcomplex', 'naxes', 'variant', 'how', 'name'):
+        if k in opts:
+            parts.append('{}={}'.format(k, opts[k]))
+    return ','.join(parts)
+
+
+# classes whose in-place path the repository's own tests never call:
+# computed once from odl/test (a test function that names the class and
+# passes ``out=`` counts as in-place tested)
+def _inplace_tested_classes():
+    root = os.path.join(odl_root(), 'odl', 'test')
+    tested = set()
+    names = set()
+    for e in ENTRIES.values():
+        names.update(e.classes)
+    for dirpath, _, files in os.walk(root):
+        for fn in files:
+            if not fn.endswith('.py'):
+                continue
+            with open(os.path.join(dirpath, fn)) as f:
+                src = f.read()
+            for chunk in re.split(r'\ndef test_', src):
+                if 'out=' not in chunk:
+                    continue
+                for n in names:
+                    if n in chunk:
+                        tested.add(n)
+    return tested
+
+
+class _Lazy(object):
+    """Set of entry names computed on first use."""
+
+    def __init__(self, fn):
+        self.fn, self.val = fn, None
+
+    def __contains__(self, item):
+        if self.val is None:
+            self.val = self.fn()
+        return item in self.val
+
+    def __len__(self):
+        if self.val is None:
+            self.val = self.fn()
+        return len(self.val)
+
+
+def _untested():
+    tested = _inplace_tested_classes()
+    return {n for n, e in ENTRIES.items()
+            if not any(c in tested for c in e.classes)}
+
+
+INPLACE_UNTESTED = _Lazy(_untested)
+
+ABSTRACT_CLASSES = {
+    'Operator': 'abstract base', 'Functional': 'abstract base',
+    'PointwiseTensorFieldOperator': 'abstract base',
+    'PointwiseInnerBase': 'abstract base',
+    'DiscreteFourierTransformBase': 'abstract base',
+    'FourierTransformBase': 'abstract base',
+    'WaveletTransformBase': 'abstract base',
+}
+
+
+def introspect():
+    """All Operator subclasses defined at module level in odl (without
+    contrib / tests), diffed against the classes the catalogue claims."""
+    found = {}
+    for m in pkgutil.walk_packages(odl.__path__, 'odl.'):
+        if '.contrib' in m.name or '.test' in m.name or \
+                m.name.endswith('pytest_config'):
+            continue
+        try:
+            mod = importlib.import_module(m.name)
+        except Exception:  # noqa
+            continue
+        for var, c in vars(mod).items():
+            if inspect.isclass(c) and issubclass(c, Operator) and \
+                    c.__module__ == m.name:
+                key = var if m.name.endswith('ufunc_ops') else c.__name__
+                found[(m.name, key)] = c
+    claimed = set()
+    for e in ENTRIES.values():
+        claimed.update(e.classes)
+    total = len(found)
+    covered = sorted(k for k in found if k[1] in claimed)
+    exempt = sorted(k for k in found
+                    if k[1] in ABSTRACT_CLASSES and k[1] not in claimed)
+    missing = sorted(k for k in found
+                     if k[1] not in claimed and k[1] not in ABSTRACT_CLASSES)
+    local = sorted(claimed - {k[1] for k in found})
+    return {'classes_total': total, 'classes_with_builder': len(covered),
+            'classes_exempt': ['{}.{} ({})'.format(m, n, ABSTRACT_CLASSES[n])
+                               for m, n in exempt],
+            'classes_missing': ['{}.{}'.format(m, n) for m, n in missing],
+            'local_classes_claimed': local}
+
+
+def coverage_statement():
+    rep = introspect()
+    return ['zoo coverage (introspection over odl without contrib/tests): '
+            '{} module-level Operator subclasses, {} with a catalogue '
+            'builder, {} exempt abstract bases {}, not covered: {}; plus {} '
+            'classes defined inside factories / properties reached through '
+            'their factories; {} catalogue entries, {} of them with an '
+            'in-place path the repository tests never exercise'.format(
+                rep['classes_total'], rep['classes_with_builder'],
+                len(rep['classes_exempt']), rep['classes_exempt'],
+                rep['classes_missing'] or 'none',
+                len(rep['local_classes_claimed']), len(ENTRIES),
+                len(INPLACE_UNTESTED))]
+
+
+# ==========================================================================
+# CATALOGUE
+# ==========================================================================
+# --- odl.operator.default_ops ---------------------------------------------
+
+@entry('ScalingOperator', 'default', c10=True)
+def _scaling(o):
+    sd = anyspace(o, 'space')
+    s = o.scalar('s', cplx=_is_cplx(sd))
+    return lambda: odl.ScalingOperator(B(sd), s)
+
+
+@entry('ScalingOperator.field', 'default', classes=['ScalingOperator'])
+def _scaling_field(o):
+    f = o.pick('field', ('real', 'complex'))
+    s = o.scalar('s', cplx=(f == 'complex'))
+    return lambda: odl.ScalingOperator(
+        odl.RealNumbers() if f == 'real' else odl.ComplexNumbers(), s)
+
+
+@entry('IdentityOperator', 'default', exact=True, c10=True)
+def _identity(o):
+    sd = anyspace(o, 'space')
+    return lambda: odl.IdentityOperator(B(sd))
+
+
+@entry('LinCombOperator', 'default')
+def _lincomb(o):
+    sd = anyspace(o, 'space')
+    a = o.scalar('a', cplx=_is_cplx(sd))
+    b = o.scalar('b', cplx=_is_cplx(sd))
+    return lambda: odl.LinCombOperator(B(sd), a, b)
+
+
+@entry('MultiplyOperator', 'default', c10=True)
+def _multiply(o):
+    sd = anyspace(o, 'space')
+    seed = o.seed()
+    return lambda: odl.MultiplyOperator(vec(B(sd), seed))
+
+
+@entry('MultiplyOperator.scalar', 'default', classes=['MultiplyOperator'],
+       c10=True)
+def _multiply_scalar(o):
+    sd = anyspace(o, 'space')
+    s = o.scalar('s', cplx=_is_cplx(sd))
+
+    def mk():
+        sp = B(sd)
+        return odl.MultiplyOperator(s, domain=sp, range=sp)
+    return mk
+
+
+@entry('MultiplyOperator.fielddom', 'default', classes=['MultiplyOperator'])
+def _multiply_field(o):
+    sd = anyspace(o, 'space')
+    seed = o.seed()
+
+    def mk():
+        sp = B(sd)
+        return odl.MultiplyOperator(vec(sp, seed), domain=sp.field, range=sp)
+    return mk
+
+
+@entry('PowerOperator', 'default')
+def _power(o):
+    sd = anyspace(o, 'space', kinds=('rn', 'discr'))
+    p = o.pick('p', [1, 2, 3, 0.5, 2.5, -1, 0])
+    if sd['kind'] == 'pspace' and p in (0.5, 2.5):
+        p = 3    # generic elements document integer powers only
+    if p in (0.5, 2.5):
+        o.dom = 'pos'
+    elif p == -1:
+        o.dom = 'nz'
+    else:
+        o.dom = 'mod'
+    return lambda: odl.PowerOperator(B(sd), p)
+
+
+@entry('PowerOperator.field', 'default', classes=['PowerOperator'])
+def _power_field(o):
+    p = o.pick('p', [1, 2, 3, 0.5, 2.5])
+    o.dom = 'pos'
+    return lambda: odl.PowerOperator(odl.RealNumbers(), p)
+
+
+@entry('PowerOperator.derivative', 'derivative',
+       classes=['OperatorLeftScalarMult', 'MultiplyOperator'])
+def _power_deriv(o):
+    sd = anyspace(o, 'space', kinds=('rn', 'discr'), pspace=False)
+    p = o.pick('p', [2, 3, 2.5])
+    seed = o.seed()
+
+    def mk():
+        sp = B(sd)
+        return odl.PowerOperator(sp, p).derivative(vec(sp, seed, 'pos'))
+    return mk
+
+
+@entry('InnerProductOperator', 'default')
+def _inner(o):
+    sd = anyspace(o, 'space')
+    seed = o.seed()
+    return lambda: odl.InnerProductOperator(vec(B(sd), seed))
+
+
+@entry('NormOperator', 'default')
+def _norm(o):
+    sd = anyspace(o, 'space')
+    return lambda: odl.NormOperator(B(sd))
+
+
+@entry('DistOperator', 'default')
+def _dist(o):
+    sd = anyspace(o, 'space')
+    seed = o.seed()
+    return lambda: odl.DistOperator(vec(B(sd), seed))
+
+
+@entry('NormOperator.derivative', 'derivative',
+       classes=['OperatorLeftScalarMult', 'InnerProductOperator'])
+def _norm_deriv(o):
+    sd = anyspace(o, 'space', kinds=('rn', 'discr'))
+    seed = o.seed()
+    which = o.pick('which', ('norm', 'dist'))
+
+    def mk():
+        sp = B(sd)
+        if which == 'norm':
+            return odl.NormOperator(sp).derivative(vec(sp, seed, 'nz'))
+        return odl.DistOperator(vec(sp, seed)).derivative(
+            vec(sp, seed + 1, 'nz'))
+    return mk
+
+
+@entry('ConstantOperator', 'default', exact=True, c10=True)
+def _constant(o):
+    sd = anyspace(o, 'space')
+    seed = o.seed()
+    zero = o.pick('zero', (False, False, False, True))
+
+    def mk():
+        sp = B(sd)
+        return odl.ConstantOperator(sp.zero() if zero else vec(sp, seed))
+    return mk
+
+
+@entry('ConstantOperator.domran', 'default', classes=['ConstantOperator'],
+       exact=True)
+def _constant_dr(o):
+    sd = anyspace(o, 'dom')
+    rd = anyspace(o, 'ran')
+    seed = o.seed()
+    aslist = o.flag('aslist')
+
+    def mk():
+        ran = B(rd)
+        c = vec(ran, seed)
+        if aslist and not isinstance(ran, ProductSpace):
+            c = c.asarray().tolist()
+        return odl.ConstantOperator(c, domain=B(sd), range=ran)
+    return mk
+
+
+@entry('ZeroOperator', 'default', c10=True)
+def _zero(o):
+    sd = anyspace(o, 'space')
+    return lambda: odl.ZeroOperator(B(sd))
+
+
+@entry('ZeroOperator.domran', 'default', classes=['ZeroOperator'])
+def _zero_dr(o):
+    sd = anyspace(o, 'dom')
+    rd = anyspace(o, 'ran')
+    return lambda: odl.ZeroOperator(B(sd), B(rd))
+
+
+def _cplx_family(name, ctor, kinds=('cn', 'cdiscr', 'rn', 'discr'), **kw):
+    @entry(name, 'default', **kw)
+    def _f(o):
+        sd = space(o, 'space', kinds=kinds, weighted=False)
+        return lambda: ctor(B(sd))
+    return _f
+
+
+_cplx_family('RealPart', lambda s: odl.RealPart(s), exact=True)
+_cplx_family('ImagPart', lambda s: odl.ImagPart(s), exact=True)
+_cplx_family('ComplexModulus', lambda s: odl.ComplexModulus(s))
+_cplx_family('ComplexModulusSquared', lambda s: odl.ComplexModulusSquared(s))
+_cplx_family('RealPart.inverse', lambda s: odl.RealPart(s).inverse,
+             classes=['ComplexEmbedding', 'RealPart'])
+_cplx_family('ImagPart.inverse', lambda s: odl.ImagPart(s).inverse,
+             classes=['ComplexEmbedding', 'ZeroOperator'])
+_cplx_family('RealPart.adjoint', lambda s: odl.RealPart(s).adjoint,
+             classes=['ComplexEmbedding', 'RealPart'])
+_cplx_family('ImagPart.adjoint', lambda s: odl.ImagPart(s).adjoint,
+             classes=['ComplexEmbedding', 'ZeroOperator'])
+
+
+@entry('ComplexEmbedding', 'default')
+def _cembed(o):
+    sd = space(o, 'space', kinds=('rn', 'discr', 'cn', 'cdiscr'),
+               weighted=False)
+    s = o.scalar('s', cplx=True, nonzero=True)
+    how = o.pick('how', ('op', 'op', 'inverse', 'adjoint'))
+
+    def mk():
+        op = odl.ComplexEmbedding(B(sd), s)
+        return op if how == 'op' else getattr(op, how)
+    return mk
+
+
+@entry('ComplexModulus.derivative', 'derivative',
+       classes=['ComplexModulusDerivative', 'ComplexModulusDerivativeAdjoint',
+                'ComplexModulusSquaredDerivative',
+                'ComplexModulusSquaredDerivativeAdjoint'])
+def _cmod_deriv(o):
+    sd = space(o, 'space', kinds=('cn', 'cdiscr'), weighted=False)
+    seed = o.seed()
+    sq = o.flag('squared')
+    adj = o.flag('adjoint')
+
+    def mk():
+        sp = B(sd)
+        op = (odl.ComplexModulusSquared if sq else odl.ComplexModulus)(sp)
+        d = op.derivative(vec(sp, seed, 'nz'))
+        return d.adjoint if adj else d
+    return mk
+
+
+# --- odl.operator.tensor_ops ----------------------------------------------
+
+def _vfspace(o, key='vf', cplx_ok=True, min_len=1, max_len=3):
+    base = space(o, key, kinds=('discr', 'rn', 'cdiscr', 'cn') if cplx_ok
+                 else ('discr', 'rn'), weighted=False, medium=False)
+    return pspace_of(o, key + '.p', base, min_len=min_len, max_len=max_len)
+
+
+def _pw_weighting(o, n):
+    wk = o.pick('pw.w', ('none', 'none', 'const', 'array'))
+    if wk == 'const':
+        return o.scalar('pw.wc', positive=True)
+    if wk == 'array':
+        return [o.scalar('pw.wa%d' % i, positive=True) for i in range(n)]
+    return None
+
+
+@entry('PointwiseNorm', 'tensor')
+def _pwnorm(o):
+    vf = _vfspace(o)
+    p = o.pick('p', [None, 1, 2, float('inf'), 3, 1.5, 2.5])
+    w = _pw_weighting(o, vf['power'])
+    return lambda: odl.PointwiseNorm(B(vf), exponent=p, weighting=w)
+
+
+@entry('PointwiseNorm.derivative', 'derivative', classes=['PointwiseInner'])
+def _pwnorm_deriv(o):
+    vf = _vfspace(o, cplx_ok=False)
+    p = o.pick('p', [2, 3, 1.5, 1])
+    w = _pw_weighting(o, vf['power'])
+    seed = o.seed()
+
+    def mk():
+        sp = B(vf)
+        return odl.PointwiseNorm(sp, exponent=p, weighting=w).derivative(
+            vec(sp, seed, 'nz'))
+    return mk
+
+
+@entry('PointwiseInner', 'tensor')
+def _pwinner(o):
+    vf = _vfspace(o)
+    w = _pw_weighting(o, vf['power'])
+    seed = o.seed()
+    adj = o.flag('adjoint')
+
+    def mk():
+        sp = B(vf)
+        op = odl.PointwiseInner(sp, vec(sp, seed), weighting=w)
+        return op.adjoint if adj else op
+    return mk
+
+
+@entry('PointwiseInnerAdjoint', 'tensor')
+def _pwinner_adj(o):
+    vf = _vfspace(o)
+    w = _pw_weighting(o, vf['power'])
+    seed = o.seed()
+    give_vf = o.flag('give_vfspace')
+
+    def mk():
+        sp = B(vf)
+        return odl.operator.tensor_ops.PointwiseInnerAdjoint(
+            sp[0], vec(sp, seed), vfspace=sp if give_vf else None,
+            weighting=w)
+    return mk
+
+
+@entry('PointwiseSum', 'tensor')
+def _pwsum(o):
+    vf = _vfspace(o)
+    w = _pw_weighting(o, vf['power'])
+    adj = o.flag('adjoint')
+
+    def mk():
+        op = odl.PointwiseSum(B(vf), weighting=w)
+        return op.adjoint if adj else op
+    return mk
+
+
+def _matrix(seed, m, n, cplx=False, kind='dense', dtype=None, diag=0.0):
+    rng = np.random.RandomState(seed)
+    a = np.round(rng.uniform(-2, 2, size=(m, n)), 2)
+    if cplx:
+        a = a + 1j * np.round(rng.uniform(-2, 2, size=(m, n)), 2)
+    if kind in ('sparse', 'coo'):
+        import scipy.sparse
+        a[np.abs(a) < 0.8] = 0
+        if diag:
+            a = a + diag * np.eye(m, n)
+        return (scipy.sparse.csr_matrix if kind == 'sparse' else
+                scipy.sparse.coo_matrix)(a)
+    if diag:
+        a = a + diag * np.eye(m, n)
+    if dtype is not None:
+        a = a.astype(dtype)
+    return a
+
+
+@entry('MatrixOperator', 'tensor', weight=2)
+def _matop(o):
+    m = o.pick('m', st.integers(1, 5))
+    n = o.pick('n', st.integers(1, 5))
+    kind = o.pick('mkind', ('dense', 'dense', 'sparse', 'coo'))
+    cplx = o.pick('cplx', ('no', 'no', 'matrix', 'both'))
+    f32 = o.flag('f32') and cplx == 'no' and kind == 'dense'
+    seed = o.seed()
+    how = o.pick('how', ('op', 'op', 'adjoint', 'inverse'))
+    domgiven = o.pick('domgiven', ('none', 'tensor', 'discr', 'weighted'))
+    if cplx == 'matrix':
+        how = 'op'      # complex matrix on a real domain has no adjoint
+    if how == 'inverse':
+        m = n
+
+    def mk():
+        mat = _matrix(seed, m, n, cplx != 'no', kind,
+                      'float32' if f32 else None,
+                      diag=7.0 if how == 'inverse' else 0.0)
+        dt = 'complex128' if cplx == 'both' else (
+            'float32' if f32 else 'float64')
+        dom = None
+        if domgiven == 'tensor':
+            dom = odl.tensor_space(n, dtype=dt)
+        elif domgiven == 'discr':
+            dom = odl.uniform_discr(0, 2, n, dtype=dt)
+        elif domgiven == 'weighted':
+            dom = odl.tensor_space(n, dtype=dt, weighting=2.5)
+        elif cplx == 'both' and kind == 'dense':
+            dom = odl.cn(n)
+        op = odl.MatrixOperator(mat, domain=dom)
+        return op if how == 'op' else getattr(op, how)
+    return mk
+
+
+@entry('MatrixOperator.axis', 'tensor', classes=['MatrixOperator'], weight=2)
+def _matop_axis(o):
+    shape = o.pick('shape', vs.small_shapes(min_ndim=2, max_ndim=3,
+                                            max_side=4, max_size=30))
+    axis = o.pick('axis', st.integers(0, len(shape) - 1))
+    m = o.pick('m', st.integers(1, 4))
+    cplx = o.flag('cplx')
+    rangiven = o.flag('rangiven')
+    neg = o.flag('negaxis')
+    how = o.pick('how', ('op', 'op', 'adjoint'))
+    seed = o.seed()
+
+    def mk():
+        mat = _matrix(seed, m, shape[axis], cplx)
+        dom = odl.tensor_space(shape, dtype=complex if cplx else float)
+        rshape = list(shape)
+        rshape[axis] = m
+        ran = odl.tensor_space(rshape, dtype=complex if cplx else float) \
+            if rangiven else None
+        op = odl.MatrixOperator(mat, domain=dom, range=ran,
+                                axis=axis - len(shape) if neg else axis)
+        return op if how == 'op' else op.adjoint
+    return mk
+
+
+def _sampling_points(o, shape):
+    npts = o.pick('npts', st.integers(1, 5))
+    pts = [[o.pick('pt%d_%d' % (a, i), st.integers(0, shape[a] - 1))
+            for i in range(npts)] for a in range(len(shape))]
+    return pts
+
+
+@entry('SamplingOperator', 'tensor', exact=True)
+def _sampling(o):
+    sd = space(o, 'space', kinds=('discr', 'rn', 'cdiscr', 'cn'),
+               medium=False)
+    shape = build.space_shape(sd)
+    pts = _sampling_points(o, shape)
+    variant = o.pick('variant', ('point_eval', 'integrate'))
+    how = o.pick('how', ('op', 'op', 'adjoint'))
+    flat1d = o.flag('flat1d')
+
+    def mk():
+        p = pts[0] if (len(shape) == 1 and flat1d) else pts
+        op = odl.SamplingOperator(B(sd), p, variant)
+        return op if how == 'op' else op.adjoint
+    return mk
+
+
+@entry('WeightedSumSamplingOperator', 'tensor')
+def _wsum_sampling(o):
+    sd = space(o, 'space', kinds=('discr', 'rn', 'cdiscr', 'cn'),
+               medium=False)
+    shape = build.space_shape(sd)
+    pts = _sampling_points(o, shape)
+    variant = o.pick('variant', ('char_fun', 'dirac'))
+    how = o.pick('how', ('op', 'op', 'adjoint'))
+
+    def mk():
+        op = odl.WeightedSumSamplingOperator(B(sd), pts, variant)
+        return op if how == 'op' else op.adjoint
+    return mk
+
+
+@entry('FlatteningOperator', 'tensor', exact=True,
+       classes=['FlatteningOperator', 'FlatteningOperatorInverse'])
+def _flatten(o):
+    sd = space(o, 'space', kinds=('discr', 'rn', 'cdiscr', 'cn'),
+               ndims=(1, 3))
+    order = o.pick('order', ('C', 'F'))
+    how = o.pick('how', ('op', 'op', 'adjoint', 'inverse', 'invinv'))
+
+    def mk():
+        op = odl.FlatteningOperator(B(sd), order)
+        if how == 'invinv':
+            return op.inverse.inverse
+        return op if how == 'op' else getattr(op, how)
+    return mk
+
+
+# --- odl.operator.pspace_ops ----------------------------------------------
+
+ENDO_KINDS = ['scale', 'ident', 'mult', 'sin', 'exp', 'square', 'const',
+              'zero', 'vecsum', 'absolute']
+
+
+def endo(o, key, kinds=None, linear=False):
+    """Pick a small endomorphism kind; returns f(space) -> operator."""
+    if kinds is None:
+        kinds = ['scale', 'ident', 'mult', 'zero'] if linear else ENDO_KINDS
+    k = o.pick(key + '.k', kinds)
+    seed = o.pick(key + '.seed', st.integers(0, 9999))
+    s = o.scalar(key + '.s', nonzero=True)
+
+    def mk(sp):
+        if k == 'scale':
+            return odl.ScalingOperator(sp, s)
+        if k == 'ident':
+            return odl.IdentityOperator(sp)
+        if k == 'mult':
+            return odl.MultiplyOperator(vec(sp, seed))
+        if k in ('sin', 'exp', 'square', 'absolute'):
+            if isinstance(sp, ProductSpace) or sp.is_complex:
+                return odl.ScalingOperator(sp, s) * odl.MultiplyOperator(
+                    vec(sp, seed))
+            return getattr(odl.ufunc_ops, k)(sp)
+        if k == 'const':
+            return odl.ConstantOperator(vec(sp, seed))
+        if k == 'zero':
+            return odl.ZeroOperator(sp)
+        if k == 'vecsum':
+            return odl.IdentityOperator(sp) - vec(sp, seed)
+        raise HarnessError('unknown endo kind ' + k)
+    return mk
+
+
+@entry('ProductSpaceOperator', 'pspace', weight=3)
+def _pso(o):
+    sd = space(o, 'space', kinds=('rn', 'discr', 'cn'), medium=False)
+    nr = o.pick('nrows', st.integers(1, 3))
+    nc = o.pick('ncols', st.integers(1, 3))
+    cells = []
+    for i in range(nr):
+        row = []
+        for j in range(nc):
+            ck = o.pick('c%d%d' % (i, j), ('op', 'op', 'none', 'zero'))
+            row.append(endo(o, 'e%d%d' % (i, j)) if ck == 'op' else ck)
+        cells.append(row)
+    how = o.pick('how', ('op', 'op', 'op', 'derivative', 'adjoint'))
+    seed = o.seed()
+    give_spaces = o.flag('give_spaces')
+
+    def mk():
+        sp = B(sd)
+        mat = [[(None if c == 'none' else 0) if isinstance(c, str)
+                else c(sp) for c in row] for row in cells]
+        dom, ran = ProductSpace(sp, nc), ProductSpace(sp, nr)
+        allempty = all(isinstance(c, str) for row in cells for c in row)
+        if give_spaces or allempty or \
+                any(all(isinstance(c, str) for c in row) for row in cells) \
+                or any(all(isinstance(cells[i][j], str) for i in range(nr))
+                       for j in range(nc)):
+            op = odl.ProductSpaceOperator(mat, domain=dom, range=ran)
+        else:
+            op = odl.ProductSpaceOperator(mat)
+        if how == 'derivative':
+            return op.derivative(vec(op.domain, seed))
+        if how == 'adjoint' and op.is_linear:
+            return op.adjoint
+        return op
+    return mk
+
+
+def _mixed_pspace(o, key='ps'):
+    n = o.pick(key + '.n', st.integers(1, 4))
+    parts = [space(o, key + '.%d' % i, kinds=('rn', 'discr'), medium=False)
+             for i in range(n)]
+    if o.flag(key + '.power'):
+        return pspace_of(o, key + '.pw', parts[0], min_len=1, max_len=4)
+    return {'kind': 'pspace', 'parts': parts, 'power': None,
+            'weighting': None, 'exponent': 2.0}
+
+
+def _cp_index(o, n):
+    ik = o.pick('ikind', ('int', 'int', 'list', 'slice', 'neg'))
+    if ik == 'int':
+        return o.pick('idx', st.integers(0, n - 1))
+    if ik == 'neg':
+        return -1 - o.pick('idx', st.integers(0, n - 1))
+    if ik == 'list':
+        return o.pick('idxl', st.lists(st.integers(0, n - 1), min_size=1,
+                                       max_size=3))
+    a = o.pick('sl0', st.integers(0, n - 1))
+    return ['slice', a, o.pick('sl1', st.integers(a + 1, n))]
+
+
+def _mkidx(idx):
+    if isinstance(idx, (list, tuple)) and len(idx) == 3 and \
+            idx[0] == 'slice':
+        return slice(idx[1], idx[2])
+    return list(idx) if isinstance(idx, (list, tuple)) else idx
+
+
+@entry('ComponentProjection', 'pspace', exact=True, weight=2)
+def _cproj(o):
+    ps = _mixed_pspace(o)
+    n = len(build.space_parts(ps))
+    idx = _cp_index(o, n)
+    return lambda: odl.ComponentProjection(B(ps), _mkidx(idx))
+
+
+@entry('ComponentProjectionAdjoint', 'pspace', exact=True, weight=2)
+def _cproj_adj(o):
+    ps = _mixed_pspace(o)
+    n = len(build.space_parts(ps))
+    idx = _cp_index(o, n)
+    via = o.flag('via_adjoint')
+
+    def mk():
+        if via:
+            return odl.ComponentProjection(B(ps), _mkidx(idx)).adjoint
+        return odl.ComponentProjectionAdjoint(B(ps), _mkidx(idx))
+    return mk
+
+
+def _pspace_family(name, ctor, same_range):
+    @entry(name, 'pspace', weight=2)
+    def _f(o):
+        sd = space(o, 'space', kinds=('rn', 'discr', 'cn'), medium=False)
+        n = o.pick('n', st.integers(1, 3))
+        parts = [endo(o, 'e%d' % i) for i in range(n)]
+        how = o.pick('how', ('op', 'op', 'op', 'derivative', 'adjoint'))
+        seed = o.seed()
+
+        def mk():
+            sp = B(sd)
+            op = ctor(*[p(sp) for p in parts])
+            if how == 'derivative':
+                return op.derivative(vec(op.domain, seed))
+            if how == 'adjoint' and op.is_linear:
+                return op.adjoint
+            return op
+        return mk
+    return _f
+
+
+_pspace_family('BroadcastOperator', odl.BroadcastOperator, False)
+_pspace_family('ReductionOperator', odl.ReductionOperator, True)
+_pspace_family('DiagonalOperator', odl.DiagonalOperator, False)
+
+
+@entry('BroadcastOperator.power', 'pspace',
+       classes=['BroadcastOperator', 'ReductionOperator', 'DiagonalOperator'])
+def _pspace_int(o):
+    """The (operator, int) calling convention."""
+    sd = space(o, 'space', kinds=('rn', 'discr'), medium=False)
+    e = endo(o, 'e')
+    n = o.pick('n', st.integers(1, 3))
+    which = o.pick('which', ('Broadcast', 'Reduction', 'Diagonal'))
+    return lambda: getattr(odl, which + 'Operator')(e(B(sd)), n)
+
+
+# --- odl.discr.diff_ops ---------------------------------------------------
+
+PAD_MODES = ['constant', 'symmetric', 'symmetric_adjoint', 'periodic',
+             'order0', 'order0_adjoint', 'order1', 'order1_adjoint',
+             'order2', 'order2_adjoint']
+METHODS = ['forward', 'backward', 'central']
+
+
+def _diff_space(o, key='space', ndims=(1, 3), cplx=True):
+    return space(o, key, kinds=('discr', 'discr', 'cdiscr') if cplx
+                 else ('discr',), ndims=ndims, min_side=3, max_side=6,
+                 max_size=150, medium=False, weighted=False)
+
+
+def _diff_opts(o, laplacian=False):
+    modes = [m for m in PAD_MODES
+             if not (laplacian and m.startswith(('order1', 'order2')))]
+    pm = o.pick('pad_mode', modes)
+    pc = 0
+    if pm == 'constant':
+        pc = o.pick('pad_const', [0, 0, 1.0, -2.5])
+    return pm, pc
+
+
+@entry('PartialDerivative', 'diff', weight=3)
+def _pderiv(o):
+    sd = _diff_space(o)
+    axis = o.pick('axis', st.integers(0, len(sd['shape']) - 1))
+    meth = o.pick('method', METHODS)
+    pm, pc = _diff_opts(o)
+    how = o.pick('how', ('op', 'op', 'op', 'adjoint', 'derivative'))
+    rangiven = o.flag('rangiven')
+
+    def mk():
+        sp = B(sd)
+        op = odl.PartialDerivative(sp, axis, range=sp if rangiven else None,
+                                   method=meth, pad_mode=pm, pad_const=pc)
+        if how == 'adjoint' and op.is_linear:
+            return op.adjoint
+        if how == 'derivative':
+            return op.derivative(sp.zero())
+        return op
+    return mk
+
+
+@entry('Gradient', 'diff', weight=2)
+def _gradient(o):
+    sd = _diff_space(o)
+    meth = o.pick('method', METHODS)
+    pm, pc = _diff_opts(o)
+    how = o.pick('how', ('op', 'op', 'op', 'adjoint', 'derivative'))
+    give = o.pick('give', ('domain', 'range', 'both'))
+
+    def mk():
+        sp = B(sd)
+        kw = {}
+        if give in ('domain', 'both'):
+            kw['domain'] = sp
+        if give in ('range', 'both'):
+            kw['range'] = sp ** sp.ndim
+        op = odl.Gradient(method=meth, pad_mode=pm, pad_const=pc, **kw)
+        if how == 'adjoint' and op.is_linear:
+            return op.adjoint
+        if how == 'derivative':
+            return op.derivative(sp.zero())
+        return op
+    return mk
+
+
+@entry('Divergence', 'diff', weight=2)
+def _divergence(o):
+    sd = _diff_space(o)
+    meth = o.pick('method', METHODS)
+    pm, pc = _diff_opts(o)
+    how = o.pick('how', ('op', 'op', 'op', 'adjoint', 'derivative'))
+    give = o.pick('give', ('domain', 'range', 'both'))
+
+    def mk():
+        sp = B(sd)
+        kw = {}
+        if give in ('domain', 'both'):
+            kw['domain'] = sp ** sp.ndim
+        if give in ('range', 'both'):
+            kw['range'] = sp
+        op = odl.Divergence(method=meth, pad_mode=pm, pad_const=pc, **kw)
+        if how == 'adjoint' and op.is_linear:
+            return op.adjoint
+        if how == 'derivative':
+            return op.derivative(op.domain.zero())
+        return op
+    return mk
+
+
+@entry('Laplacian', 'diff', weight=2)
+def _laplacian(o):
+    sd = _diff_space(o)
+    pm, pc = _diff_opts(o, laplacian=True)
+    how = o.pick('how', ('op', 'op', 'op', 'adjoint', 'derivative'))
+    rangiven = o.flag('rangiven')
+
+    def mk():
+        sp = B(sd)
+        op = odl.Laplacian(sp, range=sp if rangiven else None, pad_mode=pm,
+                           pad_const=pc)
+        if how == 'adjoint' and op.is_linear:
+            return op.adjoint
+        if how == 'derivative':
+            return op.derivative(sp.zero())
+        return op
+    return mk
+
+
+# --- odl.discr.discr_ops --------------------------------------------------
+
+@entry('Resampling', 'discr', weight=2)
+def _resampling(o):
+    sd = space(o, 'space', kinds=('discr', 'discr', 'cdiscr'), ndims=(1, 2),
+               min_side=2, max_side=6, max_size=40, medium=False,
+               weighted=False)
+    nd = len(sd['shape'])
+    rshape = [o.pick('rs%d' % i, st.integers(1, 8)) for i in range(nd)]
+    ik = o.pick('ikind', ('nearest', 'linear', 'peraxis'))
+    interp = ik if ik != 'peraxis' else [
+        o.pick('i%d' % i, ('nearest', 'linear')) for i in range(nd)]
+    how = o.pick('how', ('op', 'op', 'inverse', 'adjoint'))
+    rnob = o.flag('ran_nob')
+
+    def mk():
+        sp = B(sd)
+        ran = odl.uniform_discr(sp.min_pt, sp.max_pt, rshape, dtype=sp.dtype,
+                                nodes_on_bdry=rnob and min(rshape) > 1)
+        op = odl.Resampling(sp, ran, interp)
+        return op if how == 'op' else getattr(op, how)
+    return mk
+
+
+RESIZE_PAD = ['constant', 'symmetric', 'periodic', 'order0', 'order1']
+
+
+@entry('ResizingOperator', 'discr', weight=3,
+       classes=['ResizingOperator', 'ResizingOperatorAdjoint'])
+def _resizing(o):
+    sd = space(o, 'space', kinds=('discr', 'discr', 'cdiscr'), ndims=(1, 3),
+               min_side=2, max_side=5, max_size=60, medium=False,
+               weighted=False, nob=False)
+    shape = sd['shape']
+    pm = o.pick('pad_mode', RESIZE_PAD)
+    pc = o.pick('pad_const', [0, 0, 2.0, -1.5]) if pm == 'constant' else 0
+    rshape, offset = [], []
+    for i, n in enumerate(shape):
+        # per axis either padding or cropping (resize_array's contract);
+        # documented limits: symmetric pads < n, periodic pads <= n
+        mode = o.pick('m%d' % i, ('pad', 'pad', 'crop', 'same'))
+        if mode == 'pad':
+            maxpad = {'symmetric': n - 1, 'periodic': n}.get(pm, n + 2)
+            left = o.pick('l%d' % i, st.integers(0, maxpad))
+            right = o.pick('r%d' % i, st.integers(0, maxpad))
+        elif mode == 'crop':
+            left = -o.pick('l%d' % i, st.integers(0, n - 1))
+            right = -o.pick('r%d' % i, st.integers(0, n - 1 + left))
+        else:
+            left = right = 0
+        rshape.append(n + left + right)
+        offset.append(abs(left))
+    give = o.pick('give', ('ran_shp', 'ran_shp+offset', 'range'))
+    how = o.pick('how', ('op', 'op', 'adjoint', 'derivative', 'adjadj'))
+    nob = o.flag('discr_nob')
+
+    def mk():
+        sp = B(sd)
+        kw = {'pad_mode': pm}
+        if pm == 'constant':
+            kw['pad_const'] = pc
+        if give == 'range':
+            cs = sp.cell_sides
+            sgn = np.array([1 if r >= n else -1
+                            for r, n in zip(rshape, shape)])
+            mn = sp.min_pt - sgn * np.array(offset) * cs
+            ran = odl.uniform_discr(mn, mn + np.array(rshape) * cs, rshape,
+                                    dtype=sp.dtype)
+            op = odl.ResizingOperator(sp, ran, **kw)
+        elif give == 'ran_shp':
+            if nob:
+                kw['discr_kwargs'] = {'nodes_on_bdry': True}
+            op = odl.ResizingOperator(sp, ran_shp=rshape, **kw)
+        else:
+            op = odl.ResizingOperator(sp, ran_shp=rshape, offset=offset,
+                                      **kw)
+        if how == 'adjoint' and op.is_linear:
+            return op.adjoint
+        if how == 'adjadj' and op.is_linear:
+            return op.adjoint.adjoint
+        if how == 'derivative':
+            return op.derivative(sp.zero())
+        return op
+    return mk
+
+
+# --- odl.ufunc_ops --------------------------------------------------------
+
+from odl.util.ufuncs import UFUNCS  # noqa: E402
+
+DOMS['posint'] = (1, 6)
+_UF_DOM = {'arccos': 'unit', 'arcsin': 'unit', 'arctanh': 'unit',
+           'log': 'pos', 'log2': 'pos', 'log10': 'pos', 'sqrt': 'pos',
+           'log1p': 'pos', 'reciprocal': 'nz', 'arccosh': 'gt1',
+           'power': 'pos', 'divide': 'nz', 'true_divide': 'nz',
+           'floor_divide': 'nz', 'remainder': 'nz', 'mod': 'nz',
+           'fmod': 'nz', 'exp': 'mod', 'expm1': 'mod', 'exp2': 'mod',
+           'sinh': 'mod', 'cosh': 'mod', 'tan': 'unit', 'square': 'any',
+           'logaddexp': 'mod', 'logaddexp2': 'mod'}
+_UF_INT_DOM = {'power': 'nat', 'left_shift': 'nat', 'right_shift': 'nat',
+               'divide': 'posint', 'true_divide': 'posint',
+               'floor_divide': 'posint', 'remainder': 'posint',
+               'mod': 'posint', 'fmod': 'posint', 'reciprocal': 'posint',
+               'log': 'posint', 'log2': 'posint', 'log10': 'posint',
+               'sqrt': 'posint', 'log1p': 'posint', 'arccosh': 'posint',
+               'arccos': 'nat', 'arcsin': 'nat', 'arctanh': 'nat',
+               'exp': 'nat', 'exp2': 'nat', 'expm1': 'nat', 'sinh': 'nat',
+               'cosh': 'nat'}
+for _d in ('arccos', 'arcsin', 'arctanh'):
+    _UF_INT_DOM[_d] = 'zero'
+DOMS['zero'] = (0, 0)
+UFUNC_DERIV = ['sin', 'cos', 'tan', 'sqrt', 'square', 'log', 'exp',
+               'reciprocal', 'sinh', 'cosh']
+
+
+def _int_only(name):
+    return 'shift' in name or 'bitwise' in name or name == 'invert'
+
+
+def _uf_kinds(name, nin):
+    uf = getattr(np, name)
+    ins = [t.split('->')[0] for t in uf.types]
+    kinds = []
+    if not _int_only(name):
+        kinds += ['rn', 'rn', 'discr']
+        if 'D' * nin in ins:
+            kinds += ['cn']
+        if name not in ('signbit', 'copysign', 'arctan2', 'hypot',
+                        'logaddexp', 'logaddexp2', 'modf', 'ceil', 'floor',
+                        'trunc', 'deg2rad', 'rad2deg'):
+            kinds += ['int']
+        else:
+            kinds += ['int']   # ints are cast to the minimal float signature
+    else:
+        kinds += ['int']
+    return kinds
+
+
+def _make_ufunc_entry(name, nin, nout):
+    @entry('ufunc.' + name, 'ufunc', classes=[name + '_op'])
+    def _f(o):
+        sd = space(o, 'space', kinds=_uf_kinds(name, nin), ndims=(1, 2),
+                   weighted=True)
+        isint = np.dtype(sd['dtype']).kind in 'iu'
+        o.dom = (_UF_INT_DOM.get(name, 'int') if isint
+                 else _UF_DOM.get(name, 'any'))
+        if _is_cplx(sd) and o.dom == 'any':
+            o.dom = 'mod'
+        pair = o.flag('as_pair') and nin == 2
+
+        def mk():
+            sp = B(sd)
+            return getattr(odl.ufunc_ops, name)(
+                ProductSpace(sp, sp) if pair else sp)
+        return mk
+
+    if not _int_only(name) and nin == 1 and nout == 1:
+        @entry('ufunc.' + name + '.func', 'ufuncfunc',
+               classes=[name + '_func'])
+        def _g(o):
+            o.dom = _UF_DOM.get(name, 'any')
+            how = o.pick('how', ('default', 'explicit'))
+            return lambda: (getattr(odl.ufunc_ops, name)() if how == 'default'
+                            else getattr(odl.ufunc_ops, name)(
+                                odl.RealNumbers()))
+
+
+for _name, _nin, _nout, _doc in UFUNCS:
+    _make_ufunc_entry(_name, _nin, _nout)
+
+
+@entry('ufunc.derivative', 'derivative', classes=['MultiplyOperator'])
+def _uf_deriv(o):
+    name = o.pick('name', UFUNC_DERIV)
+    sd = space(o, 'space', kinds=('rn', 'discr'), weighted=True)
+    seed = o.seed()
+
+    def mk():
+        sp = B(sd)
+        pt = vec(sp, seed, {'sqrt': 'pos', 'log': 'pos', 'reciprocal': 'nz',
+                            'tan': 'unit'}.get(name, 'mod'))
+        return getattr(odl.ufunc_ops, name)(sp).derivative(pt)
+    return mk
+
+
+@entry('ufunc.func.gradient', 'gradient',
+       classes=['FunctionalQuotient', 'ScalingFunctional',
+                'FunctionalLeftScalarMult'])
+def _uf_grad(o):
+    name = o.pick('name', UFUNC_DERIV)
+    o.dom = {'sqrt': 'pos', 'log': 'pos', 'reciprocal': 'nz',
+             'tan': 'unit'}.get(name, 'mod')
+    return lambda: getattr(odl.ufunc_ops, name)().gradient
+
+
+@entry('ufunc.ldexp-like.mixed', 'ufunc', classes=['add_op'])
+def _uf_mixed(o):
+    """Two-argument ufunc on a product of two *different* spaces."""
+    name = o.pick('name', ('add', 'multiply', 'maximum', 'less', 'power'))
+    n = o.pick('n', st.integers(1, 5))
+    o.dom = 'pos'
+    return lambda: getattr(odl.ufunc_ops, name)(
+        ProductSpace(odl.rn(n), odl.rn(n, dtype='float32')))
